@@ -1,0 +1,27 @@
+//go:build verif
+
+package calcium
+
+import (
+	"context"
+
+	"github.com/projecteru2/core/types"
+)
+
+// Verification hooks (build tag `verif` only): the lock helpers of lock.go
+// called directly with arbitrary arguments.  Nothing here changes behaviour.
+
+// VerifE2WithNodesLocked runs withNodesPodLocked (or, with nodeOp,
+// withNodesOperationLocked) with an empty callback.
+func (c *Calcium) VerifE2WithNodesLocked(ctx context.Context, nf *types.NodeFilter, nodeOp bool) error {
+	f := func(context.Context, map[string]*types.Node) error { return nil }
+	if nodeOp {
+		return c.withNodesOperationLocked(ctx, nf, f)
+	}
+	return c.withNodesPodLocked(ctx, nf, f)
+}
+
+// VerifE2WithWorkloadsLocked runs withWorkloadsLocked with an empty callback.
+func (c *Calcium) VerifE2WithWorkloadsLocked(ctx context.Context, ids []string, ignoreLock bool) error {
+	return c.withWorkloadsLocked(ctx, ignoreLock, ids, func(context.Context, map[string]*types.Workload) error { return nil })
+}
